@@ -296,3 +296,16 @@ func sameObject(a, b interface{}) bool {
 	}
 	return reflect.DeepEqual(a, b)
 }
+
+// strLen is len(s) (kept in the integer theory under symgo).
+func strLen(s string) int { return len(s) }
+
+// Environment call log (engine ghost state): OS-boundary calls such as os.MkdirAll are recorded with their
+// arguments instead of being executed. Natively nothing is recorded (the real calls run).
+func envLogCount(name string) int                   { return 0 }
+func envLogStr(name string, call, arg int) string   { return "" }
+func envLogInt(name string, call, arg int) int64    { return 0 }
+func envSetResult(name string, fail bool)           {}
+
+// containsSlash reports whether s contains '/'.
+func containsSlash(s string) bool { return strings.Contains(s, "/") }
